@@ -76,6 +76,30 @@ def cases(tier, inst):
                 for dom in (doms2 if thorough else doms2[:4] + doms2[8:12]):
                     for caching in ((True, False) if place != "after" else (True,)):
                         yield ("free2", t, place, sel, dom, caching)
+    # the universal is a SUB-QUERY over u whose condition mentions the free variable (every u with u.q <= x.p ...): its
+    # values differ from one binding of x to the next; conditions reach the value through the sub-query object (S.p).
+    # `nested`: for_all(w, for_all(S(w), c(x, S))) - the inner universal depends on the outer universal variable
+    sub_leaves = [leaves("var")[i] for i in (0, 1, 2, 3, 4, 9)]
+    sub_doms = [d for i, d in enumerate(doms) if len(d) >= 2][::(1 if thorough else 3)]
+    for sk in SUBCONDS:
+        for t in trees_by_depth(sub_leaves, 1):
+            if "u" not in Q.cond_vars(t):
+                continue
+            for place in ("alone", "before", "after", "nested"):
+                if place == "nested" and sk == "uncorrelated":
+                    continue
+                for dom in sub_doms:
+                    for caching in ((True, False) if place == "alone" else (True,)):
+                        yield ("subq", sk, t, place, dom, caching)
+    # the universal is built from the FREE (selected) variable: every element of x.t (un-nested), the value x.t[0]
+    for uk in CORR_UNIVERSALS:
+        for t in trees_by_depth(corr_leaves(uk), 1 if not thorough else 2):
+            if thorough and Q.depth(t) == 2 and hash(t) % 4:
+                continue
+            for place in ("alone", "before", "after"):
+                for wk in range(len(CORR_WORLDS)):
+                    for caching in (True, False):
+                        yield ("corr", uk, t, place, wk, caching)
     rep = [leaves("var")[i] for i in (0, 1, 4, 6)]
     sel_doms = [doms[i] for i in (0, 3, 5, 9, 14, len(doms) - 1)]
     for t in trees_by_depth(rep, 2):
@@ -98,7 +122,58 @@ def leaves2():
             ("cmp", "ge", yp, xp), ("cmp", "ge", up, L(2))]
 
 
+CORR_UNIVERSALS = {"fl": ("fl", A(X, "t")), "idx": ("i", A(X, "t"), 0)}
+CORR_WORLDS = (
+    ((("p", 1), ("q", 1), ("t", (1, 2))), (("p", 2), ("q", 1), ("t", (2,))), (("p", 1), ("q", 2), ("t", (1, 1))),
+     (("p", 3), ("q", 1), ("t", (3, 1))), (("p", 2), ("q", 2), ("t", (2, 2, 3)))),
+    ((("p", 2), ("q", 2), ("t", (2, 2))), (("p", 2), ("q", 1), ("t", (1, 3, 2))), (("p", 3), ("q", 3), ("t", (3,)))),
+)
+
+
+def corr_leaves(uk):
+    e = CORR_UNIVERSALS[uk]
+    return [("cmp", "le", e, A(X, "p")), ("cmp", "ne", A(X, "q"), e), ("cmp", "ge", e, L(2)), ("cmp", "eq", e, A(X, "p")),
+            ("cmp", "ge", A(X, "q"), L(2))]
+
+
+W_ = V("w")
+VW = ("w", "let", "Item", "W")
+WROWS = (("p", 1), ("q", 2)), (("p", 2), ("q", 1)), (("p", 3), ("q", 1))
+SUBCONDS = {"le": lambda o: ("cmp", "le", A(U, "q"), A(o, "p")), "ne": lambda o: ("cmp", "ne", A(U, "p"), A(o, "q")),
+            "eq": lambda o: ("cmp", "eq", A(U, "p"), A(o, "p")), "uncorrelated": lambda o: ("cmp", "ge", A(U, "p"), L(2))}
+
+
+def subst(t, old, new):
+    if t == old:
+        return new
+    if isinstance(t, tuple):
+        return tuple(subst(e, old, new) for e in t)
+    return t
+
+
+def subq_parts(case):
+    _, sk, t, place, dom, caching = case
+    outer = W_ if place == "nested" else X
+    scond = SUBCONDS[sk](outer)
+    S = ("sub1", ("Q", "an", "entity", U, (scond,), (VU,)))
+    return outer, scond, S
+
+
 def query_of(case):
+    if case[0] == "corr":
+        _, uk, t, place, wk, caching = case
+        fa = ("fa", CORR_UNIVERSALS[uk], t)
+        other = ("cmp", "le", A(X, "p"), L(2))
+        conds = {"alone": (fa,), "before": (("andf", other, fa),), "after": (("andf", fa, other),)}[place]
+        return ("Q", "an", "setof", (X,), conds, (VX,))
+    if case[0] == "subq":
+        _, sk, t, place, dom, caching = case
+        outer, scond, S = subq_parts(case)
+        fa = ("fa", S, subst(t, U, S))
+        other = ("cmp", "le", A(X, "p"), L(2))
+        conds = {"alone": (fa,), "before": (("andf", other, fa),), "after": (("andf", fa, other),),
+                 "nested": (("fa", W_, fa),)}[place]
+        return ("Q", "an", "setof", (X,), conds, (VX,))
     if case[0] == "free2":
         _, t, place, sel, dom, caching = case
         fa = ("fa", U, t)
@@ -114,12 +189,105 @@ def query_of(case):
 
 
 def wspec_of(case):
+    if case[0] == "corr":
+        return (("F", "Item", CORR_WORLDS[case[4]]),)
+    if case[0] == "subq":
+        return (("F", "Item", FREE), ("U", "Item", case[4]), ("W", "Item", WROWS))
     if case[0] == "free2":
         return (("F", "Item", FREE_X2), ("G", "Item", FREE_Y2), ("U", "Item", case[4]))
     return (("F", "Item", FREE), ("U", "Item", case[3]))
 
 
+def run_subq(case, inst):
+    _, sk, t, place, dom, caching = case
+    q = query_of(case)
+    outer, scond, S = subq_parts(case)
+
+    def body():
+        world = build_world(wspec_of(case), inst)
+        ref = Q.Ref(world, inst, universals=(VU,))
+        must, unspecified = [], []
+        for x in world["F"]:
+            if place in ("before", "after") and not x.p <= inst.v(2):
+                continue
+            ok, empty = True, False
+            for w in (world["W"] if place == "nested" else [None]):
+                env = {"x": x, "w": w}
+                us = [u for u in world["U"] if ref.holds(scond, {**env, "u": u})]
+                empty = empty or not us        # the statement speaks of a non-empty domain of the universal
+                ok = ok and all(ref.holds(t, {**env, "u": u}) for u in us)
+            (unspecified if empty else must).append((x,)) if (ok or empty) else None
+        try:
+            from entity_query_language import symbolic_mode
+            b = Q.Builder(world, inst)
+            with symbolic_mode():
+                b.declare((VU, VW) if place == "nested" else (VU,))
+                obj = b.query(q)
+            sel = b.sel[q]
+            got1 = [tuple(r[s_] for s_ in sel) for r in obj.evaluate()]
+        except Exception as e:
+            return exc_obs(e), None, must, unspecified
+        try:
+            got2 = [tuple(r[s_] for s_ in sel) for r in obj.evaluate()]
+        except Exception as e:
+            got2 = exc_obs(e)
+        return got1, got2, must, unspecified
+
+    got1, got2, must, unspecified = run_isolated(body, caching=caching)
+    res = {"ok": True, "nontrivial": 0 < len(must) < len(FREE), "transitions": 2,
+           "tags": ["uform=subq", f"sub={sk}", f"root={root_kind(t)}", f"place={place}",
+                    f"caching={'on' if caching else 'off'}", f"urows={len(dom)}"], "outcome": str(len(must))}
+    for name, got in (("eval1", got1), ("eval2", got2)):
+        if is_exc(got):
+            d = "exception"
+        else:
+            # bindings under which the sub-query has no solution are outside the statement: neither demanded nor forbidden
+            rest = [r for r in got if not any(r[0] is u[0] for u in unspecified)]
+            d = diff_rows(rest, must, count=True)
+        if d is not None:
+            res.update(ok=False, sig=f"{name}:{d}/root={root_kind(t)}/cache={'on' if caching else 'off'}/subq-{sk}-{place}",
+                       obs=(name, row_labels(got)), exp=("must", row_labels(must), "unspecified", row_labels(unspecified)))
+            break
+    return res
+
+
+def run_corr(case, inst):
+    _, uk, t, place, wk, caching = case
+    q = query_of(case)
+
+    def body():
+        world = build_world(wspec_of(case), inst)
+        exp = [(env["x"],) for env in Q.Ref(world, inst).solutions(q)]
+        try:
+            obj, b = Q.build(q, world, inst)
+            sel = b.sel[q]
+            got1 = [tuple(r[s_] for s_ in sel) for r in obj.evaluate()]
+        except Exception as e:
+            return exc_obs(e), None, exp
+        try:
+            got2 = [tuple(r[s_] for s_ in sel) for r in obj.evaluate()]
+        except Exception as e:
+            got2 = exc_obs(e)
+        return got1, got2, exp
+
+    got1, got2, exp = run_isolated(body, caching=caching)
+    res = {"ok": True, "nontrivial": 0 < len(exp) < len(CORR_WORLDS[wk]), "transitions": 2,
+           "tags": [f"uform=corr-{uk}", f"root={root_kind(t)}", f"place={place}", f"caching={'on' if caching else 'off'}"],
+           "outcome": str(len(exp))}
+    for name, got in (("eval1", got1), ("eval2", got2)):
+        d = diff_rows(got, exp, count=True)
+        if d is not None:
+            res.update(ok=False, sig=f"{name}:{d}/root={root_kind(t)}/cache={'on' if caching else 'off'}/corr-{uk}-{place}",
+                       obs=(name, row_labels(got)), exp=row_labels(exp))
+            break
+    return res
+
+
 def run_case(case, inst):
+    if case[0] == "corr":
+        return run_corr(case, inst)
+    if case[0] == "subq":
+        return run_subq(case, inst)
     if case[0] == "free2":
         _, t, place, sel2, dom, caching = case
         uform = "free2"
@@ -168,6 +336,18 @@ def run_case(case, inst):
 
 
 def describe(case, inst):
+    if case[0] == "corr":
+        return (("enable_caching()" if case[-1] else "disable_caching()") + "\n" + Q.up_world(wspec_of(case), inst) + "\n"
+                + Q.up_query(query_of(case), inst)
+                + "\nrows1 = list(q.evaluate()); rows2 = list(q.evaluate())"
+                  "\n# expected: {x | all(c(x, e) for e in x.t)} (resp. c(x, x.t[0])): the universal is built from the selected x")
+    if case[0] == "subq":
+        return (("enable_caching()" if case[-1] else "disable_caching()") + "\n" + Q.up_world(wspec_of(case), inst) + "\n"
+                + "with symbolic_mode(): u = let(Item, U)" + ("; w = let(Item, W)" if case[3] == "nested" else "") + "\n"
+                + Q.up_query(query_of(case), inst)
+                + "\n# S = the sub-query an(entity(u, ...)), ONE object, the universal of the for_all and what the condition reads"
+                  "\nrows1 = list(q.evaluate()); rows2 = list(q.evaluate())"
+                  "\n# expected: {x | all(c(x, u) for u in U if s(u, x))}; an x for which no u qualifies is not judged")
     return (("enable_caching()" if case[-1] else "disable_caching()") + "\n" + Q.up_world(wspec_of(case), inst) + "\n"
             + "with symbolic_mode(): u = let(Item, U)\n" + Q.up_query(query_of(case), inst)
             + "\nrows1 = list(q.evaluate()); rows2 = list(q.evaluate())   # expected: {x | all(c(x, u) for u in U)}")
